@@ -172,6 +172,13 @@ def bvsmod(a, b):
     return "(bvsmod {} {})".format(a, b)
 
 
+def bvsrem(a, b):
+    """
+    Signed remainder (sign follows the dividend): a rem b
+    """
+    return "(bvsrem {} {})".format(a, b)
+
+
 def bvurem(a, b):
     """
     Unsigned modulo: a mod b
